@@ -22,7 +22,8 @@ class TooMany(Exception):
 class Matchers:
     def __init__(self, lexmap, ignore_case=False):
         self.m = {}
-        for t, (kind, text) in lexmap.items():
+        for t, lm in lexmap.items():
+            kind, text = lm[0], lm[1]     # lm[2:] = meta-data (priority ...)
             if kind == "s":
                 self.m[t] = ("s", text.lower() if ignore_case else text, len(text))
             else:
